@@ -518,7 +518,24 @@ class C12(Check):
     }
 
     def cases(self, tier, seed):
+        # the concurrent family is interleaved with the model families so that a time-truncated run covers both
         p = self.PLAN[tier]
+        nconc, k = p['concurrent'], 0
+        every = 6
+        for i, case in enumerate(self._model_cases(tier, seed)):
+            yield case
+            if k < nconc and i % every == 0:
+                yield {'kind': 'concurrent', 'seed': (seed << 32) + k}
+                k += 1
+        while k < nconc:
+            yield {'kind': 'concurrent', 'seed': (seed << 32) + k}
+            k += 1
+
+    def _model_cases(self, tier, seed):
+        p = self.PLAN[tier]
+        for reentrant in (0, 1):
+            for closed in ('0', '01', '012', '2', '12'):
+                yield {'kind': 'lowfd', 'reentrant': reentrant, 'closed': closed}
         rng = random.Random(seed * 65537 + 3)
         for ci, cfg in enumerate(CONFIGS):
             for L in range(1, p['len'] + 1):
@@ -543,15 +560,72 @@ class C12(Check):
         for i in range(p['pair_sample']):
             ci = rng.randrange(len(CONFIGS))
             yield {'cfg': ci, 'seq': random_sequence(rng, CONFIGS[ci], rng.randrange(2, 6)), 'kind': 'fault2'}
-        for i in range(p['concurrent']):
-            yield {'kind': 'concurrent', 'seed': (seed << 32) + i}
         for i in range(p.get('len5_sample', 0)):
             ci = rng.randrange(len(CONFIGS))
             yield {'cfg': ci, 'seq': random_sequence(rng, CONFIGS[ci], 5), 'kind': 'random'}
 
+    def run_lowfd(self, case):
+        """The contract in a real process whose standard streams are closed, so that the lock file's descriptor is 0, 1 or 2."""
+        import subprocess, json as _json
+        from vf.core import PY, VERIF, REPO
+        res = CaseResult()
+        st = res.stats
+        d = tempfile.mkdtemp(prefix='c12low-', dir=self.dir)
+        rep = os.path.join(d, 'report.json')
+        env = dict(os.environ, PYTHONPATH=os.pathsep.join([REPO, VERIF]), PYTHONDONTWRITEBYTECODE='1')
+        try:
+            p = subprocess.run([PY, '-m', 'vf.props.lowfd_child', os.path.join(d, 'x.lock'), rep, str(case['reentrant']), case['closed']],
+                               env=env, cwd=VERIF, stdin=subprocess.DEVNULL, stdout=subprocess.DEVNULL, stderr=subprocess.DEVNULL, timeout=120)
+            obs = _json.load(open(rep))
+        except subprocess.TimeoutExpired:
+            res.violate('C12:low-descriptor:hang', 'a process with closed standard streams hung in the lock sequence', case=case)
+            return res
+        except Exception as e:      # noqa
+            res.inconclusive = f'low-descriptor child gave no report: {e!r}'
+            return res
+        finally:
+            import shutil
+            shutil.rmtree(d, ignore_errors=True)
+        st['executions'] += 1
+        st['kind_lowfd'] += 1
+        low = False
+        for o in obs:
+            bad = None
+            if o[0] == 'error':
+                bad = f'an operation raised {o[1]}'
+            elif o[0] == 'acquire':
+                low = low or any(x <= 2 for x in o[4])
+                if o[2] is not True or o[3] is not True or len(o[4]) != 1:
+                    bad = f'acquire of a free lock: returned {o[2]}, is_locked {o[3]}, descriptors held {o[4]}'
+            elif o[0] == 'nested' and (o[2] is not True or o[3] is not True):
+                bad = 'nested acquire refused'
+            elif o[0] == 'after_inner_release' and o[2] is not True:
+                bad = 'inner release dropped the lock'
+            elif o[0] == 'other_object_refused' and (o[2] is not False or o[3] is not False):
+                bad = 'a second object acquired the held lock'
+            elif o[0] == 'released' and (o[2] is not False or o[3]):
+                bad = f'after release: is_locked {o[2]}, descriptors still open {o[3]}'
+            elif o[0] == 'other_object_after_release' and o[2] is not True:
+                bad = 'after a full release another object cannot acquire'
+            elif o[0] == 'end_of_round' and o[2]:
+                bad = f'descriptors left open {o[2]}'
+            if bad:
+                res.violate('C12:low-descriptor', bad + ' (process with closed standard streams)', case=case, observations=obs)
+                break
+        if low:
+            st['lock_file_on_descriptor_0_1_2'] += 1
+        res.nontrivial = low
+        if low:
+            st['nontrivial'] += 1
+        res.sig = f"lowfd:{case['reentrant']}:{case['closed']}"
+        res.sample = {'kind': 'lowfd', 'case': case, 'observations': obs[:6]}
+        return res
+
     def run_case(self, case):
         if case['kind'] == 'concurrent':
             return self.run_concurrent(case)
+        if case['kind'] == 'lowfd':
+            return self.run_lowfd(case)
         cfg = CONFIGS[case['cfg']]
         seq = [tuple(a) for a in case['seq']]
         res = CaseResult()
@@ -629,7 +703,7 @@ class C12(Check):
                 'fault_fired_open': 100, 'fault_fired_lock': 100, 'fault_fired_unlock': 100,
                 'fault_fired_close': 100, 'seen_forced_at_depth': 50, 'seen_release_unheld': 100,
                 'seen_refused': 1000, 'seen_nested': 500, 'concurrent_contended': 2500 if q else 60000,
-                'acquire_time_bounds_judged': 4000 if q else 100000, 'concurrent_long_delay_injected': 800 if q else 20000}
+                'lock_file_on_descriptor_0_1_2': 4, 'acquire_time_bounds_judged': 4000 if q else 100000, 'concurrent_long_delay_injected': 800 if q else 20000}
 
     def extra_evidence(self, tier, agg):
         out = {}
